@@ -386,10 +386,8 @@ def check_predict(rec, bm, yo, x2, case, sig):
             rec.nontriv(["predict", "nan"] + sig, [case["g"]["s"], case["obs"], x2, case["perm"]])
         return None
     if reg == "band":
-        if not (np.isnan(mean) or ref.xmin - 4 * EPS * abs(ref.xmin) <= mean
-                <= ref.xmax + 4 * EPS * abs(ref.xmax)):
-            rec.violation("bmci-predict-value", case, {"regime": "band", "got": mean,
-                                                      "range": [ref.xmin, ref.xmax]})
+        # weights are (close to) subnormal: their products with x have no relative accuracy, so
+        # neither NaN nor any particular number can be demanded - only that nothing is raised
         return None
     if not entry["ok"]:
         return None
@@ -575,7 +573,9 @@ def check_quantiles(rec, bm, yo, x2, taus, case, sig):
     xf = xwl.astype(float)
     for t, qq in zip(taus, q):
         below = B.cdf_at(st["w"], xf, st["W"], qq - slack, True)
-        up = xf[xf >= qq - slack]
+        # interpolation puts q anywhere in [x_j, x_j+1] with F_j <= tau <= F_j+1; a q within
+        # rounding of x_j counts as inside the interval (lenient side)
+        up = xf[xf >= qq + slack]
         nxt = up.min() if up.size else ref.xmax
         atmost = B.cdf_at(st["w"], xf, st["W"], nxt, False)
         if not (below <= t + tolF and t <= atmost + tolF):
